@@ -28,6 +28,21 @@ theorem assignKeys_toList (version : Int) (n : Node) (nonce : Nat) :
 
 end Node
 
+/-- a property of the trees the state holds: `P` for stored trees (roots in the database
+and the batch, surviving leaves, the last saved tree), `Q` for the working tree -/
+structure TreeInv where
+  P : Option Node → Prop
+  Q : Option Node → Prop
+  P_none : P none
+  Q_none : Q none
+  P_Q : ∀ r, P r → Q r
+  Q_set : ∀ (n m : Node) (k v : Bytes) (u : Bool), Q (some n) → n.set k v = .ok (m, u) → Q (some m)
+  Q_new : ∀ k v : Bytes, Q (some (Node.new k v))
+  Q_remove : ∀ (n : Node) (k : Bytes) (nn : Option Node) (nkey val : Option Bytes) (rem : Bool),
+    Q (some n) → n.remove k = .ok (nn, nkey, val, rem) → Q nn
+  P_assign : ∀ (version : Int) (n : Node), Q (some n) → n.nk = none → P (some (Node.assignKeys version n 0).1)
+  P_ref : ∀ (n : Node), Q (some n) → n.nk.isSome → P (some n)
+
 namespace DB
 
 theorem mem_of_lookup {β : Type} {v : Int} {x : β} {l : List (Int × β)} (h : lookup v l = some x) : (v, x) ∈ l := by
@@ -67,12 +82,12 @@ theorem mem_insertRoot {v : Int} {r : Option Node} {l : List (Int × Option Node
           · exact Or.inl h
           · exact Or.inr (by simp [h])
 
-/-- every tree in the database is well-formed -/
-def AllWF (d : DB) : Prop := (∀ p ∈ d.roots, WFo p.2) ∧ (∀ p ∈ d.stuck, p.2.WF)
+/-- every tree in the database has the property -/
+def AllP (I : TreeInv) (d : DB) : Prop := (∀ p ∈ d.roots, I.P p.2) ∧ (∀ p ∈ d.stuck, I.P (some p.2))
 
-theorem allWF_empty : DB.empty.AllWF := ⟨by simp [DB.empty], by simp [DB.empty]⟩
+theorem allP_empty (I : TreeInv) : AllP I DB.empty := ⟨by simp [DB.empty], by simp [DB.empty]⟩
 
-theorem getRoot_wf {d : DB} (h : d.AllWF) {v : Int} {r : Option Node} (hr : d.getRoot v = .ok r) : WFo r := by
+theorem getRoot_P {I : TreeInv} {d : DB} (h : AllP I d) {v : Int} {r : Option Node} (hr : d.getRoot v = .ok r) : I.P r := by
   unfold getRoot at hr
   split at hr
   · rename_i x hx
@@ -84,17 +99,19 @@ theorem getRoot_wf {d : DB} (h : d.AllWF) {v : Int} {r : Option Node} (hr : d.ge
       exact h.2 _ (mem_of_lookup hl)
     · simp at hr
 
-theorem allWF_setRoot {d : DB} (h : d.AllWF) (v : Int) {r : Option Node} (hr : WFo r) : (d.setRoot v r).AllWF := by
+theorem allP_setRoot {I : TreeInv} {d : DB} (h : AllP I d) (v : Int) {r : Option Node} (hr : I.P r) :
+    AllP I (d.setRoot v r) := by
   refine ⟨?_, h.2⟩
   intro p hp
   rcases mem_insertRoot hp with e | e
   · rw [e]; exact hr
   · exact h.1 p e
 
-theorem allWF_restrict {d : DB} (h : d.AllWF) (p : Int → Bool) : (d.restrict p).AllWF :=
+theorem allP_restrict {I : TreeInv} {d : DB} (h : AllP I d) (p : Int → Bool) : AllP I (d.restrict p) :=
   ⟨fun q hq => h.1 q (List.mem_filter.1 hq).1, fun q hq => h.2 q (List.mem_filter.1 hq).1⟩
 
-theorem allWF_addStuck {d : DB} (h : d.AllWF) (v : Int) {n : Node} (hn : n.WF) : (d.addStuck v n).AllWF := by
+theorem allP_addStuck {I : TreeInv} {d : DB} (h : AllP I d) (v : Int) {n : Node} (hn : I.P (some n)) :
+    AllP I (d.addStuck v n) := by
   refine ⟨h.1, ?_⟩
   intro q hq
   simp only [addStuck, List.mem_append, List.mem_singleton] at hq
@@ -106,13 +123,13 @@ end DB
 
 namespace St
 
-/-- every tree the state holds is well-formed -/
-def AllWF (s : St) : Prop := s.db.AllWF ∧ s.batch.AllWF ∧ WFo s.root ∧ WFo s.lsRoot
+/-- every tree the state holds has the property -/
+def Holds (I : TreeInv) (s : St) : Prop := DB.AllP I s.db ∧ DB.AllP I s.batch ∧ I.Q s.root ∧ I.P s.lsRoot
 
-theorem init_allWF (iv : Int) : (St.init iv).AllWF :=
-  ⟨DB.allWF_empty, DB.allWF_empty, trivial, trivial⟩
+theorem init_holds (I : TreeInv) (iv : Int) : Holds I (St.init iv) :=
+  ⟨DB.allP_empty I, DB.allP_empty I, I.Q_none, I.P_none⟩
 
-theorem allWF_of_same {s s' : St} (h : Same s s') (hw : s.AllWF) : s'.AllWF := by
+theorem holds_of_same {I : TreeInv} {s s' : St} (h : Same s s') (hw : Holds I s) : Holds I s' := by
   obtain ⟨h1, h2, h3, h4⟩ := hw
   refine ⟨?_, ?_, ?_, ?_⟩
   · rw [h.1]; exact h1
@@ -120,16 +137,16 @@ theorem allWF_of_same {s s' : St} (h : Same s s') (hw : s.AllWF) : s'.AllWF := b
   · rw [h.2.2.1]; exact h3
   · rw [h.2.2.2.2.1]; exact h4
 
-theorem savedRoot_wf {s : St} (h : WFo s.root) : WFo s.savedRoot := by
+theorem savedRoot_P {I : TreeInv} {s : St} (h : I.Q s.root) : I.P s.savedRoot := by
   unfold savedRoot
   cases hr : s.root with
-  | none => trivial
+  | none => exact I.P_none
   | some r =>
     rw [hr] at h
     simp only
-    cases r.nk with
-    | some k => exact h
-    | none => exact Node.assignKeys_wf h
+    cases hk : r.nk with
+    | some k => exact I.P_ref r h (by rw [hk]; rfl)
+    | none => exact I.P_assign _ r h hk
 
 theorem savedRoot_abs (s : St) : abs s.savedRoot = abs s.root := by
   unfold savedRoot
@@ -172,16 +189,16 @@ theorem saveVersion_roots (H : Bytes → Bytes) (s : St) :
       | some k => simp [hk]
       | none => simp [hk]
 
-theorem allWF_of_parts {s s' : St} (hw : s.AllWF) (h1 : s'.db = s.db) (h2 : s'.pend = s.pend)
-    (h3 : WFo s'.root) (h4 : WFo s'.lsRoot) : s'.AllWF := by
+theorem holds_of_parts {I : TreeInv} {s s' : St} (hw : Holds I s) (h1 : s'.db = s.db) (h2 : s'.pend = s.pend)
+    (h3 : I.Q s'.root) (h4 : I.P s'.lsRoot) : Holds I s' := by
   refine ⟨?_, ?_, h3, h4⟩
   · rw [h1]; exact hw.1
   · simp only [St.batch, h1, h2]; exact hw.2.1
 
-theorem set_wf {s s' : St} {k : Bytes} {v : Option Bytes} {u : Bool} (h : s.set k v = .ok (u, s')) (hw : s.AllWF) :
-    s'.AllWF := by
+theorem set_holds {I : TreeInv} {s s' : St} {k : Bytes} {v : Option Bytes} {u : Bool}
+    (h : s.set k v = .ok (u, s')) (hw : Holds I s) : Holds I s' := by
   obtain ⟨h1, h2, -, -, -, h6, -⟩ := set_frame h
-  refine allWF_of_parts hw h1 h2 ?_ (h6 ▸ hw.2.2.2)
+  refine holds_of_parts hw h1 h2 ?_ (h6 ▸ hw.2.2.2)
   unfold St.set at h
   cases v with
   | none => simp at h
@@ -192,78 +209,87 @@ theorem set_wf {s s' : St} {k : Bytes} {v : Option Bytes} {u : Bool} (h : s.set 
       rw [hr] at h
       simp only [Except.ok.injEq, Prod.mk.injEq] at h
       obtain ⟨-, h⟩ := h; subst h
-      exact ⟨trivial, by simp [Node.new, OMap.Sorted]⟩
+      exact I.Q_new k val
     | some n =>
       rw [hr] at h
-      have hn : n.WF := by have := hw.2.2.1; rw [hr] at this; exact this
-      obtain ⟨m, u', hset, hm, -, -⟩ := Node.set_spec hn k val
+      have hn : I.Q (some n) := by have := hw.2.2.1; rw [hr] at this; exact this
       simp only at h
-      rw [hset] at h
-      simp only [Except.ok.injEq, Prod.mk.injEq] at h
-      obtain ⟨-, h⟩ := h; subst h
-      exact hm
+      cases hset : n.set k val with
+      | error e => rw [hset] at h; simp at h
+      | ok p =>
+        obtain ⟨m, u'⟩ := p
+        rw [hset] at h
+        simp only [Except.ok.injEq, Prod.mk.injEq] at h
+        obtain ⟨-, h⟩ := h; subst h
+        exact I.Q_set n m k val u' hn hset
 
-theorem remove_wf {s s' : St} {k : Bytes} {x : Option Bytes × Bool} (h : s.remove k = .ok (x, s')) (hw : s.AllWF) :
-    s'.AllWF := by
+theorem remove_holds {I : TreeInv} {s s' : St} {k : Bytes} {x : Option Bytes × Bool}
+    (h : s.remove k = .ok (x, s')) (hw : Holds I s) : Holds I s' := by
   obtain ⟨h1, h2, -, -, -, h6, -⟩ := remove_frame h
-  refine allWF_of_parts hw h1 h2 ?_ (h6 ▸ hw.2.2.2)
+  refine holds_of_parts hw h1 h2 ?_ (h6 ▸ hw.2.2.2)
   unfold St.remove at h
   cases hr : s.root with
   | none =>
     rw [hr] at h
     simp only [Except.ok.injEq, Prod.mk.injEq] at h
-    obtain ⟨-, h⟩ := h; subst h; rw [hr]; trivial
+    obtain ⟨-, h⟩ := h; subst h; rw [hr]; exact I.Q_none
   | some n =>
     rw [hr] at h
-    have hn : n.WF := by have := hw.2.2.1; rw [hr] at this; exact this
-    obtain ⟨nn, nkey, val, rem, hrm, hnn, -⟩ := Node.remove_spec hn k
+    have hn : I.Q (some n) := by have := hw.2.2.1; rw [hr] at this; exact this
     simp only at h
-    rw [hrm] at h
-    simp only at h
-    cases rem with
-    | false =>
-      simp only [Bool.not_false, if_true, Except.ok.injEq, Prod.mk.injEq] at h
-      obtain ⟨-, h⟩ := h; subst h; rw [hr]; exact hn
-    | true =>
-      simp only [Bool.not_true, Bool.false_eq_true, if_false, Except.ok.injEq, Prod.mk.injEq] at h
-      obtain ⟨-, h⟩ := h; subst h; exact hnn
+    cases hrm : n.remove k with
+    | error e => rw [hrm] at h; simp at h
+    | ok p =>
+      obtain ⟨nn, nkey, val, rem⟩ := p
+      rw [hrm] at h
+      simp only at h
+      cases rem with
+      | false =>
+        simp only [Bool.not_false, if_true, Except.ok.injEq, Prod.mk.injEq] at h
+        obtain ⟨-, h⟩ := h; subst h; rw [hr]; exact hn
+      | true =>
+        simp only [Bool.not_true, Bool.false_eq_true, if_false, Except.ok.injEq, Prod.mk.injEq] at h
+        obtain ⟨-, h⟩ := h; subst h
+        exact I.Q_remove n k nn nkey val true hn hrm
 
-theorem rollback_wf (s : St) (hw : s.AllWF) : s.rollback.AllWF := by
+theorem rollback_holds {I : TreeInv} (s : St) (hw : Holds I s) : Holds I s.rollback := by
   obtain ⟨h1, h2, -⟩ := rollback_frame s
-  refine allWF_of_parts hw h1 h2 ?_ ?_
+  refine holds_of_parts hw h1 h2 ?_ ?_
   · unfold rollback; split
-    · exact hw.2.2.2
-    · trivial
+    · exact I.P_Q _ hw.2.2.2
+    · exact I.Q_none
   · unfold rollback; split <;> exact hw.2.2.2
 
-theorem loadVersion_wf (s : St) (t : Int) (hw : s.AllWF) : (s.loadVersion t).2.AllWF := by
+theorem loadVersion_holds {I : TreeInv} (s : St) (t : Int) (hw : Holds I s) : Holds I (s.loadVersion t).2 := by
   obtain ⟨h1, h2⟩ := loadVersion_frame s t
   rcases loadVersion_root s t with ⟨a, b, -⟩ | ⟨v, r, hr, a, b, -⟩
-  · exact allWF_of_parts hw h1 h2 (a ▸ hw.2.2.1) (b ▸ hw.2.2.2)
-  · have := DB.getRoot_wf hw.1 hr
-    exact allWF_of_parts hw h1 h2 (a ▸ this) (b ▸ this)
+  · exact holds_of_parts hw h1 h2 (a ▸ hw.2.2.1) (b ▸ hw.2.2.2)
+  · have := DB.getRoot_P hw.1 hr
+    exact holds_of_parts hw h1 h2 (a ▸ I.P_Q _ this) (b ▸ this)
 
-theorem reopen_wf (s : St) (hw : s.AllWF) : s.reopen.2.AllWF := by
+theorem reopen_holds {I : TreeInv} (s : St) (hw : Holds I s) : Holds I s.reopen.2 := by
   unfold reopen
-  apply loadVersion_wf
-  exact ⟨hw.1, hw.1, trivial, trivial⟩
+  apply loadVersion_holds
+  exact ⟨hw.1, hw.1, I.Q_none, I.P_none⟩
 
-theorem saveVersion_wf (H : Bytes → Bytes) (s : St) (hw : s.AllWF) : (s.saveVersion H).2.AllWF := by
-  have hroots : WFo (s.saveVersion H).2.root ∧ WFo (s.saveVersion H).2.lsRoot := by
+theorem saveVersion_holds {I : TreeInv} (H : Bytes → Bytes) (s : St) (hw : Holds I s) :
+    Holds I (s.saveVersion H).2 := by
+  have hroots : I.Q (s.saveVersion H).2.root ∧ I.P (s.saveVersion H).2.lsRoot := by
     rcases saveVersion_roots H s with ⟨a, b⟩ | ⟨r, hr, a, b⟩ | ⟨a, b⟩
     · exact ⟨a ▸ hw.2.2.1, b ▸ hw.2.2.2⟩
-    · have := DB.getRoot_wf hw.1 hr
-      exact ⟨a ▸ this, b ▸ this⟩
-    · have := savedRoot_wf hw.2.2.1
-      exact ⟨a ▸ this, b ▸ this⟩
+    · have := DB.getRoot_P hw.1 hr
+      exact ⟨a ▸ I.P_Q _ this, b ▸ this⟩
+    · have := savedRoot_P hw.2.2.1
+      exact ⟨a ▸ I.P_Q _ this, b ▸ this⟩
   rcases saveVersion_cases H s with ⟨-, h1, h2⟩ | ⟨-, h1, h2, -⟩
-  · exact allWF_of_parts hw h1 h2 hroots.1 hroots.2
-  · have hdb : (s.saveVersion H).2.db.AllWF := by
-      rw [h1]; exact DB.allWF_setRoot hw.2.1 _ (savedRoot_wf hw.2.2.1)
+  · exact holds_of_parts hw h1 h2 hroots.1 hroots.2
+  · have hdb : DB.AllP I (s.saveVersion H).2.db := by
+      rw [h1]; exact DB.allP_setRoot hw.2.1 _ (savedRoot_P hw.2.2.1)
     refine ⟨hdb, ?_, hroots.1, hroots.2⟩
     simp only [St.batch, h2, Option.getD_none]; exact hdb
 
-theorem deleteVersion_wf {s s' : St} {v : Int} (h : s.deleteVersion v = .ok s') (hw : s.AllWF) : s'.AllWF := by
+theorem deleteVersion_holds {I : TreeInv} {s s' : St} {v : Int} (h : s.deleteVersion v = .ok s') (hw : Holds I s) :
+    Holds I s' := by
   unfold deleteVersion at h
   cases hp : s.db.getRoot v with
   | error e => rw [hp] at h; simp at h
@@ -278,17 +304,18 @@ theorem deleteVersion_wf {s s' : St} {v : Int} (h : s.deleteVersion v = .ok s') 
       subst h
       refine ⟨hw.1, ?_, hw.2.2.1, hw.2.2.2⟩
       simp only [St.batch, Option.getD_some]
-      have hr := DB.allWF_restrict hw.2.1 (fun x => decide (x ≠ v))
+      have hr := DB.allP_restrict hw.2.1 (fun x => decide (x ≠ v))
       cases hst : staysKey v prev cur with
       | none => exact hr
       | some p =>
         simp only
         have hprev := staysKey_some hst
-        have hpw : WFo prev := DB.getRoot_wf hw.1 hp
+        have hpw : I.P prev := DB.getRoot_P hw.1 hp
         rw [hprev] at hpw
-        exact DB.allWF_addStuck hr v hpw
+        exact DB.allP_addStuck hr v hpw
 
-theorem deleteLoop_wf (to : Int) : ∀ (fuel : Nat) (s : St) (v : Int), s.AllWF → (deleteLoop to fuel s v).2.AllWF := by
+theorem deleteLoop_holds {I : TreeInv} (to : Int) : ∀ (fuel : Nat) (s : St) (v : Int), Holds I s →
+    Holds I (deleteLoop to fuel s v).2 := by
   intro fuel
   induction fuel with
   | zero => intro s v hw; exact hw
@@ -300,85 +327,112 @@ theorem deleteLoop_wf (to : Int) : ∀ (fuel : Nat) (s : St) (v : Int), s.AllWF 
       | error e => exact hw
       | ok s1 =>
         simp only
-        have h1 := deleteVersion_wf hd hw
+        have h1 := deleteVersion_holds hd hw
         exact ih { s1 with first := v + 1 } (v + 1) h1
     · exact hw
 
-theorem commit_wf {s : St} (hw : s.AllWF) : s.commit.AllWF :=
+theorem commit_holds {I : TreeInv} {s : St} (hw : Holds I s) : Holds I s.commit :=
   ⟨hw.2.1, by simp only [St.batch, commit, Option.getD_none]; exact hw.2.1, hw.2.2.1, hw.2.2.2⟩
 
-theorem deleteVersionsTo_wf (s : St) (to : Int) (hw : s.AllWF) : (s.deleteVersionsTo to).2.AllWF := by
+theorem deleteVersionsTo_holds {I : TreeInv} (s : St) (to : Int) (hw : Holds I s) :
+    Holds I (s.deleteVersionsTo to).2 := by
   unfold deleteVersionsTo
   split
-  · exact commit_wf hw
+  · exact commit_holds hw
   · have ab := (getFirstVersion_same s).trans (getLatestVersion_same s.getFirstVersion.2)
-    have hw2 := allWF_of_same ab hw
+    have hw2 := holds_of_same ab hw
     simp only
     split
     · exact hw2
-    · have hl := deleteLoop_wf to ((to - s.getFirstVersion.1 + 1).toNat) _ s.getFirstVersion.1 hw2
+    · have hl := deleteLoop_holds to ((to - s.getFirstVersion.1 + 1).toNat) _ s.getFirstVersion.1 hw2
       split
       · rename_i e s' heq
         rw [heq] at hl; exact hl
       · rename_i u s' heq
-        rw [heq] at hl; exact commit_wf hl
+        rw [heq] at hl; exact commit_holds hl
 
-theorem deleteVersionsToGuarded_wf (s : St) (to : Int) (hw : s.AllWF) : (s.deleteVersionsToGuarded to).2.AllWF := by
+theorem deleteVersionsToGuarded_holds {I : TreeInv} (s : St) (to : Int) (hw : Holds I s) :
+    Holds I (s.deleteVersionsToGuarded to).2 := by
   unfold deleteVersionsToGuarded
-  have hw1 := allWF_of_same (getLatestVersion_same s) hw
+  have hw1 := holds_of_same (getLatestVersion_same s) hw
   simp only
   split
   · exact hw1
-  · exact deleteVersionsTo_wf _ to hw1
+  · exact deleteVersionsTo_holds _ to hw1
 
-theorem deleteVersionsFrom_wf (s : St) (f : Int) (hw : s.AllWF) : (s.deleteVersionsFrom f).AllWF := by
+theorem deleteVersionsFrom_holds {I : TreeInv} (s : St) (f : Int) (hw : Holds I s) :
+    Holds I (s.deleteVersionsFrom f) := by
   unfold deleteVersionsFrom
-  have hw1 := allWF_of_same (getLatestVersion_same s) hw
+  have hw1 := holds_of_same (getLatestVersion_same s) hw
   simp only
   split
   · exact hw1
   · refine ⟨hw1.1, ?_, hw1.2.2.1, hw1.2.2.2⟩
     simp only [St.batch, Option.getD_some]
-    exact DB.allWF_restrict hw1.2.1 _
+    exact DB.allP_restrict hw1.2.1 _
 
-theorem loadVersionForOverwriting_wf (s : St) (t : Int) (hw : s.AllWF) :
-    (s.loadVersionForOverwriting t).2.AllWF := by
+theorem loadVersionForOverwriting_holds {I : TreeInv} (s : St) (t : Int) (hw : Holds I s) :
+    Holds I (s.loadVersionForOverwriting t).2 := by
   unfold loadVersionForOverwriting
-  have hl := loadVersion_wf s t hw
+  have hl := loadVersion_holds s t hw
   split
   · rename_i e s' heq
     rw [heq] at hl; exact hl
   · rename_i u s' heq
     rw [heq] at hl
-    exact commit_wf (deleteVersionsFrom_wf s' (t + 1) hl)
+    exact commit_holds (deleteVersionsFrom_holds s' (t + 1) hl)
 
-theorem step_wf (H : Bytes → Bytes) (s : St) (op : Op) (hw : s.AllWF) : (s.step H op).AllWF := by
+theorem step_holds {I : TreeInv} (H : Bytes → Bytes) (s : St) (op : Op) (hw : Holds I s) : Holds I (s.step H op) := by
   cases op with
   | set k v =>
     simp only [step]
     cases h : s.set k v with
     | error e => exact hw
-    | ok p => obtain ⟨u, s'⟩ := p; exact set_wf h hw
+    | ok p => obtain ⟨u, s'⟩ := p; exact set_holds h hw
   | remove k =>
     simp only [step]
     cases h : s.remove k with
     | error e => exact hw
-    | ok p => obtain ⟨x, s'⟩ := p; exact remove_wf h hw
-  | save => exact saveVersion_wf H s hw
-  | load t => exact loadVersion_wf s t hw
+    | ok p => obtain ⟨x, s'⟩ := p; exact remove_holds h hw
+  | save => exact saveVersion_holds H s hw
+  | load t => exact loadVersion_holds s t hw
   | lvo t =>
     simp only [step]
     split
     · exact hw
-    · exact loadVersionForOverwriting_wf s t hw
-  | delto t => exact deleteVersionsToGuarded_wf s t hw
-  | rollback => exact rollback_wf s hw
-  | reopen => exact reopen_wf s hw
+    · exact loadVersionForOverwriting_holds s t hw
+  | delto t => exact deleteVersionsToGuarded_holds s t hw
+  | rollback => exact rollback_holds s hw
+  | reopen => exact reopen_holds s hw
 
-theorem run_wf (H : Bytes → Bytes) (s : St) (ops : List Op) (hw : s.AllWF) : (s.run H ops).AllWF := by
+theorem run_holds {I : TreeInv} (H : Bytes → Bytes) (s : St) (ops : List Op) (hw : Holds I s) :
+    Holds I (s.run H ops) := by
   induction ops generalizing s with
   | nil => exact hw
-  | cons op ops ih => exact ih _ (step_wf H s op hw)
+  | cons op ops ih => exact ih _ (step_holds H s op hw)
+
+/-! ### instance: well-formedness -/
+
+/-- stored trees and the working tree are well-formed -/
+def wfInv : TreeInv where
+  P := WFo
+  Q := WFo
+  P_none := trivial
+  Q_none := trivial
+  P_Q := fun _ h => h
+  Q_set := fun n m k v u hn hset => by
+    obtain ⟨m', u', hset', hm, -, -⟩ := Node.set_spec (n := n) hn k v
+    rw [hset] at hset'
+    simp only [Except.ok.injEq, Prod.mk.injEq] at hset'
+    rw [hset'.1]; exact hm
+  Q_new := fun k v => ⟨trivial, by simp [Node.new, OMap.Sorted]⟩
+  Q_remove := fun n k nn nkey val rem hn hrm => by
+    obtain ⟨nn', nkey', val', rem', hrm', hnn, -⟩ := Node.remove_spec (n := n) hn k
+    rw [hrm] at hrm'
+    simp only [Except.ok.injEq, Prod.mk.injEq] at hrm'
+    rw [hrm'.1]; exact hnn
+  P_assign := fun _ _ hn _ => Node.assignKeys_wf hn
+  P_ref := fun _ hn _ => hn
 
 end St
 end GnoVerif.C30
